@@ -39,7 +39,9 @@ RULE = ("one case = (operation instance, aspect); operation instances: 4 plate g
         "RandomScorer, DBAL kernel and GaussianDBALScorer with a triple budget below C(n,3), KPerSample policy, select_next_plate, "
         "score_chunk with / without rng, sampling.sample on the two legacy Gibbs models, and the 4 CLI main()s in-process with --seed; "
         "inputs are random small screens built from a per-case seed; each instance is executed twice with the same seed under "
-        "different global-generator states with all numpy.random module functions and default_rng trapped.  Trivial: the operation "
+        "different global-generator states with all numpy.random module functions and default_rng trapped; the operations that are "
+        "methods of a constructible object (generators, smoothers, scorers, the policy) are in addition asked twice on ONE object "
+        "(key same_object).  Trivial: the operation "
         "refused its input (raised) in both runs; operations that legitimately make no draw (feature 'no-draws', e.g. MergeMin) are "
         "kept, since absence of hidden draws is what is checked; distinct by canonical description (operation, parameters, aspect).")
 THEOREMS = {
@@ -464,19 +466,38 @@ def _scorer(name, d):
     return GaussianDBALScorer(max_chunk=d.get("max_chunk", 2), max_triples=d.get("max_triples", 3))
 
 
+def _shared(d, mk):
+    """the object an operation is a method of: a fresh one per run, or - description key same_object - ONE object that
+    serves both runs (the property's 'repeated with identical inputs' also covers asking the same generator / smoother /
+    scorer / policy object again)"""
+    if not d.get("same_object"):
+        return mk
+    box = []
+
+    def get():
+        if not box:
+            box.append(mk())
+        return box[0]
+    return get
+
+
 def build(d):
     from batchie import retrospective as R
     k = d["kind"]
     seed = d.get("seed", 0)
 
     if k == "sparse_cover":
-        return lambda S: out_screen(R.SparseCoverPlateGenerator(d["reveal_single"]).generate_and_unmask_initial_plate(mk_screen(d["screen"]), S.rng(seed)))
+        o = _shared(d, lambda: R.SparseCoverPlateGenerator(d["reveal_single"]))
+        return lambda S: out_screen(o().generate_and_unmask_initial_plate(mk_screen(d["screen"]), S.rng(seed)))
     if k == "pairwise":
-        return lambda S: out_screen(R.PairwisePlateGenerator(d["subset_size"], d["anchor_size"]).generate_plates(mk_screen(d["screen"]), S.rng(seed)))
+        o = _shared(d, lambda: R.PairwisePlateGenerator(d["subset_size"], d["anchor_size"]))
+        return lambda S: out_screen(o().generate_plates(mk_screen(d["screen"]), S.rng(seed)))
     if k == "plate_permutation":
-        return lambda S: out_screen(R.PlatePermutationPlateGenerator(d["force_include"]).generate_plates(mk_screen(d["screen"]), S.rng(seed)))
+        o = _shared(d, lambda: R.PlatePermutationPlateGenerator(d["force_include"]))
+        return lambda S: out_screen(o().generate_plates(mk_screen(d["screen"]), S.rng(seed)))
     if k == "sample_segregating":
-        return lambda S: out_screen(R.SampleSegregatingPermutationPlateGenerator(d["max_plate_size"]).generate_plates(mk_screen(d["screen"]), S.rng(seed)))
+        o = _shared(d, lambda: R.SampleSegregatingPermutationPlateGenerator(d["max_plate_size"]))
+        return lambda S: out_screen(o().generate_plates(mk_screen(d["screen"]), S.rng(seed)))
     if k == "smoother":
         def mk():
             n = d["name"]
@@ -493,19 +514,21 @@ def build(d):
             if n == "BatchieEnsemble":
                 return R.BatchieEnsemblePlateSmoother(d["min_size"], d["n_iterations"], d["min_n"])
             raise ValueError(n)
-        return lambda S: out_screen(mk().smooth_plates(mk_screen(d["screen"]), S.rng(seed)))
+        o = _shared(d, mk)
+        return lambda S: out_screen(o().smooth_plates(mk_screen(d["screen"]), S.rng(seed)))
     if k == "random_holdout":
         return lambda S: [out_screen(x) for x in R.create_random_holdout(mk_screen(d["screen"]), d["fraction"], S.rng(seed))]
     if k == "balanced_holdout":
         return lambda S: [out_screen(x) for x in R.create_plate_balanced_holdout_set_among_masked_plates(mk_screen(d["screen"]), d["fraction"], S.rng(seed))]
     if k == "random_scorer":
+        o = _shared(d, lambda: _scorer("RandomScorer", d))
+
         def f(S):
-            from batchie.scoring.rand import RandomScorer
             sc = mk_screen(d["screen"])
             plates = {p.plate_id: p for p in sc.plates if not p.is_observed}
             if d.get("reverse"):
                 plates = dict(reversed(list(plates.items())))
-            return cv(RandomScorer().score(plates, None, None, S.rng(seed), False))
+            return cv(o().score(plates, None, None, S.rng(seed), False))
         return f
     if k == "dbal_vectorized":
         def f(S):
@@ -519,25 +542,35 @@ def build(d):
             return cv(dbal_fast_gauss_scoring_vectorized(preds, var, dist, S.rng(seed), max_combos=d["max_combos"]))
         return f
     if k == "dbal_scorer":
+        o = _shared(d, lambda: _scorer("GaussianDBALScorer", d))
+
         def f(S):
             sc = mk_screen(d["screen"])
             th = mk_thetas(sc, d["n_thetas"], d["data_seed"])
             dm = mk_dist(d["n_thetas"], d["data_seed"] + 1)
             plates = {p.plate_id: p for p in sc.plates if not p.is_observed}
-            return cv(_scorer("GaussianDBALScorer", d).score(plates, dm, th, S.rng(seed), False))
+            return cv(o().score(plates, dm, th, S.rng(seed), False))
         return f
     if k == "policy_filter":
-        def f(S):
+        def mkpol():
             from batchie.policies.k_per_sample import KPerSamplePlatePolicy
+            return KPerSamplePlatePolicy(d["k"])
+        o = _shared(d, mkpol)
+
+        def f(S):
             sc = mk_screen(d["screen"])
             un = sorted([p for p in sc.plates if not p.is_observed], key=lambda p: p.plate_id)
             batch = [p for p in un if p.plate_id in d["batch"]]
             rest = [p for p in un if p.plate_id not in d["batch"]]
-            return [int(p.plate_id) for p in KPerSamplePlatePolicy(d["k"]).filter_eligible_plates(batch, rest, S.rng(seed))]
+            return [int(p.plate_id) for p in o().filter_eligible_plates(batch, rest, S.rng(seed))]
         return f
     if k == "select_next_plate":
-        def f(S):
+        def mkpol2():
             from batchie.policies.k_per_sample import KPerSamplePlatePolicy
+            return KPerSamplePlatePolicy(d["k"]) if d["k"] else None
+        o = _shared(d, mkpol2)
+
+        def f(S):
             from batchie.scoring.main import ChunkedScoresHolder, select_next_plate
             sc = mk_screen(d["screen"])
             un = sorted([p.plate_id for p in sc.plates if not p.is_observed])
@@ -545,7 +578,7 @@ def build(d):
             h = ChunkedScoresHolder(len(un))
             for pid in un:
                 h.add_score(pid, float(g.random()))
-            pol = KPerSamplePlatePolicy(d["k"]) if d["k"] else None
+            pol = o()
             p = select_next_plate(h, sc, pol, batch_plate_ids=d["batch"], rng=None if d.get("norng") else S.rng(seed))
             return None if p is None else int(p.plate_id)
         return f
@@ -825,7 +858,7 @@ def judge(desc):
     glob = [e for e in traps if e["fn"] != "default_rng()"]
     unseeded = [e for e in traps if e["fn"] == "default_rng()" and site_ff(e["frames"][0]) != allowed]
     n_req = sum(len(g.requests) for g in r1["gens"])
-    feats = [d["kind"], op, a] + (["draws"] if (n_req or traps) else ["no-draws"])
+    feats = [d["kind"], op, a] + (["draws"] if (n_req or traps) else ["no-draws"]) + (["same-object-asked-twice"] if d.get("same_object") else [])
     if isinstance(r1["out"], list) and r1["out"][:1] == ["raised"]:
         feats.append("raises:" + r1["out"][1])
         if r1["out"] == r2["out"] and not traps:
@@ -837,7 +870,8 @@ def judge(desc):
         # rng=None with a scorer that draws: no generator was given, the premise of the property is not met
         skip_out = bool(allowed) and d["kind"] == "score_chunk" and d["scorer"] != "SizeScorer"
         if r1["out"] != r2["out"] and not skip_out:
-            pred = "%s: two runs with identical inputs and identically seeded generator (seed %s) give different outputs" % (op, d.get("seed"))
+            pred = "%s: two runs%s with identical inputs and identically seeded generator (seed %s) give different outputs" % (
+                op, " on ONE object" if d.get("same_object") else "", d.get("seed"))
             causes = [classify_trap(d, e) for e in glob + unseeded]
             if d["kind"] == "cli_calculate_scores":
                 sig = "calculate-scores-cli-ignores-seed" if "calculate-scores-cli-ignores-seed" in causes else op + ":repeatable:nondeterministic-output"
@@ -1104,6 +1138,11 @@ HASH_KINDS = {"pairwise": 3, "sparse_cover": 15, "plate_permutation": 15, "sampl
               "balanced_holdout": 24, "policy_filter": 15, "select_next_plate": 9, "cli_prepare": 6, "dbal_scorer": 12, "cli_select_next_plate": 9}
 
 
+# operations that are methods of a constructible object: also asked twice on ONE object (aspect repeatable, key same_object)
+SAME_OBJECT_KINDS = ("sparse_cover", "pairwise", "plate_permutation", "sample_segregating", "smoother", "random_scorer", "dbal_scorer",
+                     "policy_filter", "select_next_plate")
+
+
 def gen(rng, tier):
     cases = list(_gen(rng, tier))
     prefetch_hash(cases)
@@ -1120,6 +1159,8 @@ def _gen(rng, tier):
             yield dict(core, aspect=a)
         # one core in HASH_KINDS[kind] of the deterministic (non-Gibbs) kinds is also run in two fresh interpreters
         k = core["kind"]
+        if k in SAME_OBJECT_KINDS and not core.get("norng"):
+            yield dict(core, same_object=True, aspect="repeatable")
         if k in HASH_KINDS and not core.get("norng"):
             count[k] = count.get(k, 0) + 1
             if count[k] % HASH_KINDS[k] == 1 or (k == "cli_prepare" and "PairwisePlateGenerator" in core["extra"]):
